@@ -149,7 +149,7 @@ def generate(rng, tier):
             elif f == "name":
                 rec.append(rng.choice(NAMES_S))
             elif f == "status":
-                rec.append(rng.choice([0, 1, 2, 3, 10, 17, 200, 999, None, "1", "10", "None", "17", 2.0, "2.0"]))   # (look-alikes of other types too)
+                rec.append(rng.choice([0, 1, 2, 3, 10, 17, 200, 999, None, "1", "10", "None", "17", 2.0, "2.0", 0.0, -0.0]))   # (look-alikes of other types too)
             elif f == "level":
                 rec.append(rng.choice([7, 10, 17, 3.5, -2, None, 123456789, "7", "None", "3.5", 7.0]))
             elif f == "flag":
@@ -259,6 +259,13 @@ def generate(rng, tier):
                 "a;b;c;d", fields[0] + ",nosuchfield:3", fields[0] + "/nosuchmodifier",
                 # separators of another kind only: not a format (today), and certainly not "no columns"
                 ",", ",,", " , ", ",;", " , ;;", fields[0] + ",", "," + fields[0]])})
+        elif r < 0.967 and recs and "broken_first" not in table and table.get("footer") is not None:
+            # (only tables with a footer of their own: the default one, "Total N records", is made when the table
+            # is created and is not a matter of the format)
+            # the application refreshes its records list in place (rows[:] = new result) and re-applies the configured
+            # layout - an empty format by default: the table shows the new records like a fresh table would
+            ops.append({"op": "refresh", "keep": rng.choice(["half", "odd", "all", "first"]),
+                        "which": rng.choice(["empty", "empty", "semi", "semi2", "none_cols"])})
         elif r < 0.97:
             ops.append({"op": "fmt_obj_ctor"})
             if struct in ("recfields", "recfields_pos") and rng.random() < 0.7:
@@ -756,6 +763,18 @@ def execute(trace, rng):
                 else:
                     sut("remove_columns", t.remove_columns, list(op["names"]))
                 w.stats["removed"] += 1
+                c.expect = None
+                invalidate_tasks(w, c)
+            elif k == "refresh":
+                if c is not w.ctxs[0] or w.spec.get("broken_first") is not None or w.spec.get("footer") is None:
+                    continue
+                full = _struct_records(w.spec, rw.ro._records(w.spec))
+                t.records[:] = _subset(full, op["keep"])
+                c.keep = op["keep"]
+                fmt_s = {"empty": "", "semi": ";", "semi2": ";;", "none_cols": None}[op["which"]]
+                sut(f"table.fmt = <{op['which']}> after the records were refreshed", t.set_fmt, fmt_s)
+                w.stats["records_refreshed"] = w.stats.get("records_refreshed", 0) + 1
+                c.printed = False
                 c.expect = None
                 invalidate_tasks(w, c)
             elif k == "other_report":
